@@ -261,6 +261,7 @@ pub fn fault_history_from<X: FaultExec>(ctor: &str, ops: &[X::Op], rep: &mut Rep
     let base_live = cb::ledger_live();
     let only_kind = ONLY_KIND.with(|c| c.get());
     let mut scratch = Report::new(); // quiet prefix runs must not inflate the evidence counters
+    ctx::set(hist, 0);
     let mut cur: X = X::fresh(ctor);
     for i in 0..ops.len() {
         if cur.consumed() {
